@@ -1160,11 +1160,11 @@ def _access(expr, arr):
         on_arr = (isinstance(recv, ast.Name) and recv.id == arr) or \
             (c.args and isinstance(c.args[0], ast.Name) and c.args[0].id == arr)
         if on_arr and nm in ('ravel', 'flatten'):
-            return 'flat', _COPYING[nm], idx
+            return 'flat', (nm, _COPYING[nm]), idx
         if on_arr and nm == 'reshape' and len(c.args) >= 1 and _int_expr(c.args[-1], {}) == -1:
-            return 'flat', _COPYING[nm], idx
+            return 'flat', (nm, _COPYING[nm]), idx
         if on_arr and nm == 'copy':
-            return 'plain', _COPYING[nm], idx
+            return 'plain', (nm, _COPYING[nm]), idx
     return None
 
 
@@ -1221,10 +1221,10 @@ def store(repo, out):
             out.ok(fs, ws[0], f'{name} branch writes the entries indexed_val reads')
         # (ii) the write goes through to the caller's array
         if as_[1] is not None:
-            out.bad(fs, ws[0], f'`{astx.src(ws[0].targets[0])} = ...`: {as_[1]}; set_subarray passes strided '
+            out.bad(fs, ws[0], f'`{astx.src(ws[0].targets[0])} = ...`: {as_[1][1]}; set_subarray passes strided '
                     'views here (the .real view of a complex-allocated vector, a `[::2]` slice of a parent '
                     'group\'s src_indices), so the assignment goes into a temporary and the value set by '
-                    'set_val is silently dropped (use `.flat[...]`)', key=f'write-through-copy-{name}')
+                    'set_val is silently dropped (use `.flat[...]`)', key=f'write-through-{as_[1][0]}-{name}')
         else:
             out.ok(fs, ws[0], f'{name} branch assigns through a view of the array')
 
@@ -1244,7 +1244,7 @@ def _branch_starts(g, test_node, want_true):
     return [m for m, l in g.succ[test_node] if l == lab]
 
 
-@rule('C07.phase', floor=6)
+@rule('C07.phase', floor=7)
 def phase(repo, out):
     """get and set use the same store in every phase; final_setup carries node values into the vector."""
     # (1) AllConnGraph.get_val -> use_vec = <system>.has_vectors()
@@ -1337,7 +1337,16 @@ def phase(repo, out):
     vw, vt = out_writes(vec_b), tree_writes(vec_b)
     mw, mt = out_writes(meta_b), tree_writes(meta_b)
     tnode = g.nodes_of(iff)[0]
-    if vw and mt and not mw and not vt:
+    if mw or vt:
+        out.bad(fn, iff, 'the output vector is written when has_vectors() is False or the metadata tree when it '
+                'is True: get_val reads the other store', key='set-store-gate')
+    elif not vw:
+        out.bad(fn, iff, 'with vectors allocated set_val never writes model._outputs (scalar variables are '
+                'not views of the vector, their new value is dropped)', key='vector-store-missing')
+    elif not mt:
+        out.bad(fn, iff, 'before final_setup set_val never calls set_tree_val: the first value of a variable '
+                'whose shape is not known yet is dropped', key='meta-store-missing')
+    else:
         key_ok = all(c.args and tg.tags(c.args[0], tg.at(c)) == {ROOT + '[1]'} for c in vw) and \
             all(len(c.args) >= 2 and tg.tags(c.args[1], tg.at(c)) == {ROOT} for c in mt)
         reads_ok = True
@@ -1368,11 +1377,6 @@ def phase(repo, out):
                         + g.fmt_path(w), key='meta-store-missing')
             else:
                 out.ok(fn, mt[0], 'every non-error path of the metadata branch calls set_tree_val')
-    elif mw and vt and not vw and not mt:
-        out.bad(fn, iff, 'the output vector is written when has_vectors() is False and the metadata when it is '
-                'True: get_val reads the other store', key='set-store-gate')
-    else:
-        out.unsure(fn, iff, 'stores in the has_vectors branches not recognised')
 
     # (4) set_tree_val stores the value on the source node
     fn = repo.func(CG, 'AllConnGraph.set_tree_val')
@@ -1465,3 +1469,180 @@ def phase(repo, out):
     if not found:
         out.bad(fn, fn.node, 'no `self._outputs.set_var(name, <node value>)`: values set before final_setup do '
                 'not reach the output vector', key='carry-missing')
+
+
+# --------------------------------------------------------------------------- self-test
+_DEF_UNITS = "        if units is None:\n            units = tgt_units\n"
+_WB = ("            sub = chain[i + 1]\n            prev = chain[i]\n            idx = indices_list[i]\n"
+       "            if sub.base is not prev:\n                idx.indexed_val_set(prev, sub)")
+_GETCONV = ("            val = self.convert_get(node, val, src_meta.units, node_meta.units,\n"
+            "                                   src_inds_list, units, indices,")
+_SYSGET = ("            val = conn_graph.get_val(self, name, units, indices, get_remote, rank,\n"
+           "                                vec_name, kind, flat, from_src)")
+_USEVEC = ("        if use_vec:\n            val = system._abs_get_val(src_node[1], get_remote, rank, vec_name, kind, flat,\n"
+           "                                      from_root=True)\n        else:\n            val = src_meta.val\n")
+_INDS = ("        if indices is None:\n            inds = tgt_inds_list\n        else:\n"
+         "            if not isinstance(indices, Indexer):\n                indices = indexer(indices)\n"
+         "            inds = list(tgt_inds_list) + [indices]\n")
+_FULLW = ("                try:\n                    arr[:] = val\n                except ValueError:\n"
+          "                    arr[:] = val.reshape(arr.shape)\n                return")
+_CARRY = ("                if node_meta.discrete:\n                    self._discrete_outputs[name] = node_meta.val\n"
+          "                else:\n                    self._outputs.set_var(name, node_meta.val)\n")
+_IVS = ("        if self._flat_src:\n            arr.ravel()[self.flat()] = val\n        else:\n"
+        "            arr[self()] = val")
+
+selftest(
+    'C07',
+    # ---- units
+    Mutant('units-get-swapped-args', CG, 'scale, offset = unit_conversion(src_units, units)',
+           'scale, offset = unit_conversion(units, src_units)', 'C07.units'),
+    Mutant('units-set-swapped-args', CG, 'scale, offset = unit_conversion(units, src_units)',
+           'scale, offset = unit_conversion(src_units, units)', 'C07.units'),
+    Mutant('units-set-formula', CG, 'return (val + offset) * scale', 'return val * scale + offset', 'C07.units', nth=1),
+    Mutant('units-get-formula-paren', CG, 'return (val + offset) * scale', 'return val + offset * scale', 'C07.units'),
+    Mutant('units-get-unpack-swapped', CG, 'scale, offset = unit_conversion(src_units, units)',
+           'offset, scale = unit_conversion(src_units, units)', 'C07.units'),
+    Mutant('units-set-no-default', CG, _DEF_UNITS, '', 'C07.units', nth=1),
+    Mutant('units-get-default-src', CG, _DEF_UNITS, "        if units is None:\n            units = src_units\n",
+           'C07.units'),
+    Mutant('units-set-compares-node-units', CG, "            elif src_units != units:", "            elif src_units != tgt_units:",
+           'C07.units'),
+    Mutant('units-get-ne-to-eq', CG, '            if src_units != units:\n                try:\n                    scale, offset = unit_conversion(src_units',
+           '            if src_units == units:\n                try:\n                    scale, offset = unit_conversion(src_units', 'C07.units'),
+    # ---- slots
+    Mutant('slots-system-get-swapped', SYS, 'conn_graph.get_val(self, name, units, indices, get_remote, rank,',
+           'conn_graph.get_val(self, name, indices, units, get_remote, rank,', 'C07.slots'),
+    Mutant('slots-problem-set-drops-indices', PROB, 'self.model.set_val(name, val, units=units, indices=indices)',
+           'self.model.set_val(name, val, units=units)', 'C07.slots'),
+    Mutant('slots-problem-get-units-as-indices', PROB, 'self.model.get_val(name, units=units, indices=indices,',
+           'self.model.get_val(name, units=indices, indices=units,', 'C07.slots'),
+    Mutant('slots-get-units-roles-swapped', CG, _GETCONV,
+           "            val = self.convert_get(node, val, node_meta.units, src_meta.units,\n"
+           "                                   src_inds_list, units, indices,", 'C07.slots'),
+    Mutant('slots-set-units-roles-swapped', CG, 'sval = self.convert_set(val, src_units, tgt_units, (),  units)',
+           'sval = self.convert_set(val, tgt_units, src_units, (),  units)', ['C07.slots', 'C07.value']),
+    Mutant('slots-system-set-drops-units', SYS, 'conn_graph.set_val(self, name, val, units=units, indices=indices)',
+           'conn_graph.set_val(self, name, val, indices=indices)', 'C07.slots'),
+    Mutant('slots-from-src-drops-indices', CG, 'return self.get_val_from_src(system, name, units=units, indices=indices,',
+           'return self.get_val_from_src(system, name, units=units,', 'C07.slots'),
+    # ---- value
+    Mutant('value-raw-into-subarray', CG, 'self.set_subarray(srcval, inds, sval, node)',
+           'self.set_subarray(srcval, inds, val, node)', 'C07.value'),
+    Mutant('value-raw-into-subarray-meta', CG, 'self.set_subarray(srcval, inds, sval, node)',
+           'self.set_subarray(srcval, inds, val, node)', 'C07.value', nth=1),
+    Mutant('value-raw-scalar', CG, '                srcval = sval\n\n            model._outputs',
+           '                srcval = val\n\n            model._outputs', 'C07.value'),
+    Mutant('value-raw-number', CG, 'src_meta.val = sval', 'src_meta.val = val', 'C07.value'),
+    Mutant('value-input-units-into-source', CG, 'sval = self.convert_set(val, src_units, tgt_units, (),  units)',
+           'sval = self.convert_set(val, tgt_units, tgt_units, (),  units)', 'C07.value'),
+    # ---- order
+    Mutant('order-set-indices-first', CG, 'inds = list(tgt_inds_list) + [indices]',
+           'inds = [indices] + list(tgt_inds_list)', 'C07.order'),
+    Mutant('order-set-gate-flipped', CG, '        if indices is None:\n            inds = tgt_inds_list',
+           '        if indices is not None:\n            inds = tgt_inds_list', 'C07.order'),
+    Mutant('order-get-indices-first', CG,
+           "        if not node_meta.discrete:\n            val = np.asarray(val)\n            if src_inds_list:",
+           "        if indices:\n            val = self.get_subarray(val, [indices])\n\n"
+           "        if not node_meta.discrete:\n            val = np.asarray(val)\n            if src_inds_list:",
+           'C07.order'),
+    Mutant('order-subarray-not-accumulated', CG, 'current = idx.indexed_val(current)',
+           'current = idx.indexed_val(np.atleast_1d(arr))', 'C07.order'),
+    Mutant('order-subarray-reversed', CG, '            for idx in indices_list:\n                current',
+           '            for idx in reversed(indices_list):\n                current', 'C07.order'),
+    # ---- writeback
+    Mutant('wb-range-stops-at-1', CG, 'for i in range(len(chain) - 2, -1, -1):',
+           'for i in range(len(chain) - 2, 0, -1):', 'C07.writeback'),
+    Mutant('wb-range-starts-late', CG, 'for i in range(len(chain) - 2, -1, -1):',
+           'for i in range(len(chain) - 3, -1, -1):', 'C07.writeback'),
+    Mutant('wb-range-ascending', CG, 'for i in range(len(chain) - 2, -1, -1):',
+           'for i in range(len(chain) - 1):', 'C07.writeback'),
+    Mutant('wb-index-off-by-one', CG, 'idx = indices_list[i]\n', 'idx = indices_list[i - 1]\n', 'C07.writeback'),
+    Mutant('wb-parent-child-swapped', CG, 'idx.indexed_val_set(prev, sub)', 'idx.indexed_val_set(sub, prev)',
+           'C07.writeback'),
+    Mutant('wb-guard-inverted', CG, 'if sub.base is not prev:', 'if sub.base is prev:', 'C07.writeback'),
+    Mutant('wb-chain-from-arr', CG, 'chain.append(idx.indexed_val(chain[-1]))', 'chain.append(idx.indexed_val(arr))',
+           'C07.writeback'),
+    Mutant('wb-chain-reversed', CG, '                for idx in indices_list:\n                    chain.append',
+           '                for idx in indices_list[::-1]:\n                    chain.append', 'C07.writeback'),
+    Mutant('wb-inner-write-dropped', CG, '        else:\n            last[:] = val\n\n        for i in range',
+           '        else:\n            pass\n\n        for i in range', 'C07.writeback'),
+    Mutant('wb-full-write-dropped', CG, _FULLW, '                return', 'C07.writeback'),
+    # ---- store
+    Mutant('store-branches-swapped', IDX, _IVS,
+           "        if not self._flat_src:\n            arr.ravel()[self.flat()] = val\n        else:\n"
+           "            arr[self()] = val", 'C07.store'),
+    Mutant('store-shaped-uses-flat-index', IDX, '            arr[self()] = val', '            arr[self.flat()] = val',
+           'C07.store'),
+    Mutant('store-shaped-writes-copy', IDX, '            arr[self()] = val', '            arr.copy()[self()] = val',
+           'C07.store'),
+    Mutant('store-flatten', IDX, 'arr.ravel()[self.flat()] = val', 'arr.flatten()[self.flat()] = val', 'C07.store'),
+    # ---- phase
+    Mutant('phase-get-never-vec', CG, 'kind=kind, flat=flat, use_vec=system.has_vectors())',
+           'kind=kind, flat=flat, use_vec=False)', 'C07.phase'),
+    Mutant('phase-get-not-has-vectors', CG, 'kind=kind, flat=flat, use_vec=system.has_vectors())',
+           'kind=kind, flat=flat, use_vec=not system.has_vectors())', 'C07.phase'),
+    Mutant('phase-get-branches-swapped', CG, '        if use_vec:\n            val = system._abs_get_val(src_node[1]',
+           '        if not use_vec:\n            val = system._abs_get_val(src_node[1]', 'C07.phase'),
+    Mutant('phase-get-reads-node-not-source', CG, 'val = system._abs_get_val(src_node[1], get_remote, rank, vec_name, kind, flat,',
+           'val = system._abs_get_val(node[1], get_remote, rank, vec_name, kind, flat,', 'C07.phase'),
+    Mutant('phase-get-meta-of-node', CG, '        else:\n            val = src_meta.val\n\n            if is_undefined(val):',
+           '        else:\n            val = node_meta.val\n\n            if is_undefined(val):', 'C07.phase'),
+    Mutant('phase-set-branches-swapped', CG, '        if model.has_vectors():\n            srcval = model._abs_get_val(src, get_remote=False)',
+           '        if not model.has_vectors():\n            srcval = model._abs_get_val(src, get_remote=False)', 'C07.phase'),
+    Mutant('phase-set-no-vector-write', CG, '            model._outputs._abs_set_val(src, srcval)\n', '', 'C07.phase'),
+    Mutant('phase-set-no-tree-write', CG,
+           '            # propagate shape and value down the tree\n            self.set_tree_val(model, src_node, srcval)',
+           '            pass', 'C07.phase'),
+    Mutant('phase-set-writes-node-key', CG, 'model._outputs._abs_set_val(src, srcval)',
+           'model._outputs._abs_set_val(node[1], srcval)', 'C07.phase'),
+    Mutant('phase-tree-no-store', CG, "        src_meta.val = srcval\n        src_dist", "        src_dist", 'C07.phase'),
+    Mutant('phase-carry-dropped', GRP, '                    self._outputs.set_var(name, node_meta.val)\n',
+           '                    pass\n', 'C07.phase'),
+    Mutant('phase-carry-guard-flipped', GRP, '            if node_meta.val is not None:\n                if node_meta.discrete:',
+           '            if node_meta.val is None:\n                if node_meta.discrete:', 'C07.phase'),
+    Mutant('phase-carry-discrete-flipped', GRP, '                if node_meta.discrete:\n                    self._discrete_outputs[name]',
+           '                if not node_meta.discrete:\n                    self._discrete_outputs[name]', 'C07.phase'),
+    Mutant('phase-carry-from-input-node', GRP, "            node = ('o', name)\n            node_meta = conn_graph.nodes[node]['attrs']",
+           "            node = ('i', name)\n            node_meta = conn_graph.nodes[node]['attrs']", 'C07.phase'),
+    # ---- twins
+    Twin('twin-units-flip-compare', CG, '            if src_units != units:', '            if units != src_units:'),
+    Twin('twin-units-commuted-formula', CG, 'return (val + offset) * scale', 'return scale * (offset + val)', nth=1),
+    Twin('twin-units-temp', CG, '                return (val + offset) * scale\n\n        return val\n\n    def convert_set',
+         '                val = (val + offset) * scale\n                return val\n\n        return val\n\n    def convert_set'),
+    Twin('twin-units-renamed-tuple', CG, "                    scale, offset = unit_conversion(units, src_units)\n"
+         "                except Exception:\n                    raise TypeError(f\"Can't express value with units of '{src_units}' in units of \"\n"
+         "                                    f\"'{units}'.\")\n\n                return (val + offset) * scale",
+         "                    fac, off = unit_conversion(units, src_units)\n"
+         "                except Exception:\n                    raise TypeError(f\"Can't express value with units of '{src_units}' in units of \"\n"
+         "                                    f\"'{units}'.\")\n\n                return (val + off) * fac"),
+    Twin('twin-slots-keywords', SYS, _SYSGET,
+         "            val = conn_graph.get_val(self, name, units=units, indices=indices, get_remote=get_remote,\n"
+         "                                rank=rank, vec_name=vec_name, kind=kind, flat=flat, from_src=from_src)"),
+    Twin('twin-slots-local-alias', PROB, '        self.model.set_val(name, val, units=units, indices=indices)',
+         '        model = self.model\n        idxs = indices\n        model.set_val(name, val, units=units, indices=idxs)'),
+    Twin('twin-order-flipped-if', CG, _INDS,
+         "        if indices is not None:\n            if not isinstance(indices, Indexer):\n"
+         "                indices = indexer(indices)\n            inds = [*tgt_inds_list, indices]\n"
+         "        else:\n            inds = tgt_inds_list\n"),
+    Twin('twin-wb-reversed-range', CG, 'for i in range(len(chain) - 2, -1, -1):',
+         'for i in reversed(range(len(chain) - 1)):'),
+    Twin('twin-wb-range-over-indices', CG, 'for i in range(len(chain) - 2, -1, -1):',
+         'for i in range(len(indices_list) - 1, -1, -1):'),
+    Twin('twin-wb-renamed-inline', CG, _WB,
+         "            child = chain[i + 1]\n            parent = chain[i]\n"
+         "            if child.base is not parent:\n                indices_list[i].indexed_val_set(parent, child)"),
+    Twin('twin-wb-guard-flipped', CG, _WB,
+         "            sub = chain[i + 1]\n            prev = chain[i]\n            idx = indices_list[i]\n"
+         "            if sub.base is prev:\n                continue\n            else:\n"
+         "                idx.indexed_val_set(prev, sub)"),
+    Twin('twin-store-flat-fix', IDX, 'arr.ravel()[self.flat()] = val', 'arr.flat[self.flat()] = val'),
+    Twin('twin-store-flat-both', IDX, 'arr.ravel()[self.flat()] = val', 'arr.flat[self.flat()] = val',
+         also=[(IDX, 'return arr.ravel()[self.flat()]', 'return arr.flat[self.flat()]')]),
+    Twin('twin-phase-get-flipped', CG, _USEVEC,
+         "        if not use_vec:\n            val = src_meta.val\n        else:\n"
+         "            val = system._abs_get_val(src_node[1], get_remote, rank, vec_name, kind, flat,\n"
+         "                                      from_root=True)\n"),
+    Twin('twin-phase-carry-flipped', GRP, _CARRY,
+         "                if not node_meta.discrete:\n                    self._outputs.set_var(name, node_meta.val)\n"
+         "                else:\n                    self._discrete_outputs[name] = node_meta.val\n"),
+)
